@@ -417,7 +417,20 @@ func (g *Gen) heredoc(fd string) string {
 			}
 		case 1:
 			if quoted > 2 {
-				body.WriteString("$(" + g.simple() + ")")
+				// command substitutions inside the body, also ones that
+				// span lines: the printer formats them with a nested printer
+				switch g.r.Intn(5) {
+				case 0:
+					body.WriteString("$(" + g.simple() + " \\\n" + g.simple() + ") tail")
+				case 1:
+					body.WriteString("$(" + g.simple() + " |\n" + g.simple() + " &&\n" + g.simple() + ")")
+				case 2:
+					body.WriteString("$(\nif " + g.simple() + "; then\n" + g.simple() + "\nfi\n)")
+				case 3:
+					body.WriteString("`" + g.simple() + " \\\n" + g.simple() + "`")
+				default:
+					body.WriteString("$(" + g.simple() + ")")
+				}
 			} else {
 				body.WriteString("$(unclosed `")
 			}
